@@ -63,6 +63,9 @@ BUFR_Message *bufr_create_message(int edition)
    BUFR_Message *r;
 
    r = (BUFR_Message *)malloc(sizeof(BUFR_Message));
+#ifdef LIBECBUFR_VERIF
+   bufr_verif_live[BUFR_VK_MESSAGE]++;
+#endif
    r->s1.data         = NULL;
    r->s1.data_len     = 0;
    r->s2.data         = NULL;
@@ -115,6 +118,9 @@ void  bufr_free_message( BUFR_Message *r )
    r->s3.data = NULL;
    r->s2.data = NULL;
    free( r );
+#ifdef LIBECBUFR_VERIF
+   bufr_verif_live[BUFR_VK_MESSAGE]--;
+#endif
    }
 
 /**
